@@ -94,11 +94,16 @@ def g_uuid(ch, label="uuid"):
         {"RFC4122_UUID": {"name": "only-name"}},
         {"RFC4122_UUID": ""},
         {"RFC4122_UUID": {"namespace": "zażółć", "name": "€"}},
+        {"RFC4122_UUID": "NordicSemi.COM"},
+        {"RFC4122_UUID": {"namespace": "ACME.Example.org", "name": "Class_A"}},
+        {"RFC4122_UUID": {"name": "Device-01.Example.ORG"}},
+        {"RFC4122_UUID": {"namespace": " padded ", "name": " x "}},
         dict(UUID_RAW),
     ]))
 
 
-PART_OPTS = (["M", 2, {"RFC4122_UUID": {"namespace": "nordicsemi.com", "name": "x"}}, "INSTLD_MFST", "CAND_MFST", dict(UUID_RAW)]
+PART_OPTS = (["M", 2, {"RFC4122_UUID": {"namespace": "nordicsemi.com", "name": "x"}}, "INSTLD_MFST", "CAND_MFST", dict(UUID_RAW),
+              {"RFC4122_UUID": {"namespace": "NordicSemi.COM", "name": "MixedCase"}}, {"RFC4122_UUID": "Vendor.Example"}]
              + [{"raw": hexs(n, 3)} for n in (0, 2, 15, 17, 24, 256)] + ["ab", "x" * 23, "x" * 24, "x" * 255, "x" * 256, "zażółć", "€𝄞"]
              + UINT_B[:-1] + NINT_B[:-1] + ["0", "#", "z"])
 
